@@ -1346,6 +1346,138 @@ def c18(rac, units, tier, seed):
 STANDINS["C18"] = c18
 
 
+def c19(rac, units, tier, seed):
+    """The real binary against the library results: expected stdout is assembled HERE from the library's (value, unit) by the rules of the
+    property text; only the renderings of a number and of a unit are taken from the library (Rational::display is C08's subject)."""
+    import tempfile, shutil
+    from .rac import build_cli, run_cli
+    rep = Report("C19 the `any` binary (argument parsing, Db::open, result loop, Display impls, codespan diagnostics) around the proved `Ok(value)` arm",
+                 "queries of 1-4 results (values with and without units, numerator-only / denominator-only / empty units, value one, facts, evaluation errors in every position), each run with and without --exact; stdout compared line by line")
+    rnd = random.Random(seed)
+    vals = ["1", "2", "0", "-1", "1/3", "2/3", "10/4", "-7/2", "0.5", "1.0", "123456789012345678901234567890", "1/7", "1e-20", "22/7", "1e15", "1/1024", "3.14159265358979323846", "100%", "1/3*3"]
+    uns = ["", " m", " km", " s", " decade", " decades", " m/s", " km/s^2", "/s", " s^-1", " m^2", " kg*m/s^2", " N", " J/s", "/(m*s)", " mol/m^3", " btu", " ft", " °C", " h", " day", " mph", " B", " GiB/s", " m^-1 s^-1"]
+    # one query (at least) per kind of evaluation error the library can report on input that parses
+    errs = ["1/0", "1 m + 1 s", "1 m to s", "nosuchfunction(1)", "round(1, 2, 3)", "0^-1", "1 m^2 + 1 m", "1 m/°C to m/K", "1 °C * 1 °C", "1e99999999999 m", "1 m^99999999999",
+            "2 m^", "round()", "2 m^x", "1 m^2^3", "xyzzy plugh qqq", "floor(1, 2)", "1 km*mm", "2 2 m", "2 ^ (1 m)", "2 ^ 0.5", "sin(1/0)"]
+    facts = ["speed of light", "earth mass", "c", "population of sweden", "distance to the moon"]
+    singles = []
+    for v in vals:
+        for u in (uns if tier != "quick" else rnd.sample(uns, 7)):
+            singles.append(v + u)
+    singles += ["1 " + u.strip() for u in uns if u.strip() and not u.startswith("/")] + ["(" + f + ")" for f in facts] + errs
+    # pluralisation asks whether the VALUE is one: unit fractions, minus one, one written as a quotient, with units whose plural differs
+    for u in ("decade", "century", "millenium", "btu", "decade/s"):
+        singles += [f"{v} {u}" for v in ("0.5", "0.25", "1.5", "-1", "1.0", "1e0", "0.1e1", "2", "0", "-0.5")] + [f"1 {u} / 3", f"3 {u} / 3", f"2 {u} / 2", f"1 {u} * 1", f"1 {u} * 2"]
+    singles += ["1 decade", "2 decade", "1 decade/s", "2 decade/s", "1 s/decade", "-1 decade", "1.0 decade", "0 decade", "1/1 decade", "2/2 m", "1 m/m", "(1 m)/(1 m)", "1 m * 1/m"]
+    multis = []
+    for _ in range(40 if tier == "quick" else 600):
+        k = rnd.choice([2, 3, 3, 4])
+        parts = [rnd.choice(errs) if rnd.random() < 0.35 else rnd.choice(singles) for _ in range(k)]
+        multis.append(" ".join("(" + x + ")" for x in parts))
+    multis += ["(1/0) (1/0)", "(1/0) (2 m) (1/0)", "(1 m) (1/0)", "(1/0) (1 m)"]
+    queries = singles + multis
+    binary = build_cli(rac.repo)
+    os.makedirs("/var/tmp", exist_ok=True)
+    home = tempfile.mkdtemp(prefix="anything-verif-c19-", dir="/var/tmp")
+    try:
+        # the library side is asked on the SAME on-disk database the binary opens (two separately built indexes may order equal-score
+        # fact matches differently, which is C14's subject, not C19's)
+        from .rac import Rac
+        lib = Rac(rac.repo, data_home=home)
+        try:
+            ans = lib.ask_many_guarded([{"cmd": "query", "q": q, "describe": False} for q in queries], chunk=100, per_cmd_s=3.0)
+        finally:
+            lib.close()
+        for q, a in zip(queries, ans):
+            if a is None or "results" not in a:
+                rep.ran(("skipped", q), False)      # panics / parse errors / hangs of the library itself are C11's subject
+                continue
+            for exact in (True, False):
+                try:
+                    out, code, err = run_cli(binary, home, (["--exact"] if exact else []) + ["--", q])
+                except Exception as e:
+                    rep.fail("the binary does not finish", query=q, expected="output", actual=repr(e)[:200])
+                    continue
+                lines = out.split("\n")
+                want_desc = []
+                pos, bad = 0, None
+                for r in a["results"]:
+                    if "ok" in r:
+                        o = r["ok"]
+                        n, d = int(o["value"]["n"]), int(o["value"]["d"])
+                        if exact:
+                            number = f"{n}/{d}" if d != 1 else f"{n}"
+                        else:
+                            number = o.get("dec12")
+                        if number is None or o.get("unit_plural") is None:
+                            bad = "skip"
+                            break
+                        has_num = any(int(e[1]) > 0 for e in o["unit"])
+                        unit = o["unit_plural"] if F(n, d) != 1 else o["unit_singular"]
+                        want = number + (" " if has_num else "") + unit
+                        want_desc.append(want)
+                        if pos >= len(lines) or lines[pos] != want:
+                            bad = (want, lines[pos] if pos < len(lines) else "<end of output>")
+                            break
+                        pos += 1
+                    else:
+                        msg = r["err"]["msg"].split("\n")[0]
+                        want = "error: " + msg
+                        want_desc.append(want + " ...")
+                        if pos >= len(lines) or lines[pos] != want:
+                            bad = (want, lines[pos] if pos < len(lines) else "<end of output>")
+                            break
+                        pos += 1
+                        # the rest of the diagnostic: up to and including the empty line codespan ends it with
+                        while pos < len(lines) and lines[pos] != "":
+                            pos += 1
+                        pos += 1
+                if bad == "skip":
+                    rep.ran(("skipped", q), False)
+                    continue
+                rep.ran(("cli", q, exact), True, dict(query=q, exact=exact) if len(rep.samples) < 6 else None)
+                if bad is None and [l for l in lines[pos:] if l != ""]:
+                    bad = ("<end of output>", lines[pos])
+                if bad is None and code != 0:
+                    bad = ("exit status 0", f"exit status {code}: {err[-200:]}")
+                if bad is not None:
+                    rep.fail("the binary prints something else than the library computed" + (" (--exact)" if exact else ""), query=q, expected=bad[0], actual=bad[1], cli=(["--exact"] if exact else []) + ["--", q])
+        # read-back of the unit text (independent of Compound's Display impl): the unit as printed for the value one (singular names),
+        # with superscripts spelled ^n and `⋅` spelled `*`, re-read by `str::parse::<Compound>` (in the unit grammar everything after
+        # `/` divides), must be the unit the library computed -- names, prefixes and powers.  Plural names are not read back: the unit
+        # grammar reads e.g. `btus` as btu⋅s (seen on the pinned tree; no listed property speaks of re-reading printed plurals).
+        sup = {ord(a): b for a, b in zip("⁰¹²³⁴⁵⁶⁷⁸⁹⁻", "0123456789-")}
+        seen = {}
+        for q, a in zip(queries, ans):
+            for r in (a or {}).get("results", []) if a else []:
+                o = r.get("ok")
+                if o and o.get("unit_singular") is not None:
+                    seen.setdefault(o["unit_singular"], (q, o["unit"]))
+        lib = Rac(rac.repo, data_home=home)
+        try:
+            for txt, (q, unit) in sorted(seen.items()):
+                if txt == "":
+                    ok, got = (unit == []), "empty text"
+                else:
+                    t2 = re.sub(r"[⁰¹²³⁴⁵⁶⁷⁸⁹⁻]+", lambda m: "^" + m.group(0).translate(sup), txt).replace("⋅", "*")
+                    if t2.startswith("/"):
+                        t2 = "1" + t2
+                    b = lib.ask({"cmd": "compound", "s": t2})
+                    got = t2 + " => " + json.dumps(b.get("ok", {}).get("unit", b), ensure_ascii=False)
+                    ok = "ok" in b and sorted(map(str, b["ok"]["unit"])) == sorted(map(str, unit))
+                rep.ran(("readback", txt), True)
+                if not ok:
+                    rep.fail("the printed unit does not read back as the unit the library computed", query=q, expected=f"`{txt}` denotes {json.dumps(unit)}", actual=got)
+        finally:
+            lib.close()
+    finally:
+        shutil.rmtree(home, ignore_errors=True)
+    return [rep]
+
+
+STANDINS["C19"] = c19
+
+
 def register(prop):
     def deco(fn):
         STANDINS[prop] = fn
@@ -1468,6 +1600,16 @@ def replay(prop, path, repo):
         print("no concrete failing input was found for this obligation (no-failing-input-found); verifier output:")
         print(d.get("verifier_output", "")[:4000])
         return 1
+    if w.get("cli") is not None:
+        import tempfile, shutil
+        from .rac import build_cli, run_cli
+        home = tempfile.mkdtemp(prefix="anything-verif-replay-", dir="/var/tmp")
+        try:
+            out, code, err = run_cli(build_cli(repo), home, w["cli"])
+        finally:
+            shutil.rmtree(home, ignore_errors=True)
+        print(json.dumps(dict(command=["any"] + w["cli"], expected_line=w.get("expected"), previously=w.get("actual"), stdout_now=out, exit_status=code), ensure_ascii=False)[:3000])
+        return 0 if w.get("expected") in out.split("\n") and w.get("actual") not in out.split("\n") else 1
     rac = Rac(repo)
     try:
         if w.get("cmd") is not None:
